@@ -93,6 +93,42 @@ def _lambda_form(model: Model, f: FuncInfo, lam: ast.AST, node: Node, nz: Normal
     return nz.expr(lam, node), True
 
 
+def _apply_subst(text: str, subst: t.Dict[str, str]) -> str:
+    for k in sorted(subst, key=len, reverse=True):
+        text = re.sub(re.escape(k) + r'(?![A-Za-z0-9_])', lambda _m, v=subst[k]: v, text)
+    return text
+
+
+def _condition_ctor(model: Model, f: FuncInfo, call: ast.Call, node: Node, nz: Normalizer,
+                    depth: int = 0) -> t.Tuple[FuncInfo, ast.Call, Node, Normalizer, t.Dict[str, str]]:
+    """The ``Condition(...)`` construction a call amounts to: the call itself, or the single ``return Condition(...)`` of the
+    package function / static method it names (followed through helpers, parameters substituted by the caller's arguments)."""
+    q = model.resolve(call.func, f.module, f)
+    if q == f'{ANN}.Condition':
+        return f, call, node, nz, {}
+    g = model.functions.get(q or '')
+    if g is None or depth > 3 or not isinstance(g.node, ast.FunctionDef):
+        raise AnalysisError(f"{f.loc(call)}: `{unparse(call.func)}(...)` is not a Condition construction the analysis can follow")
+    params = list(g.params)
+    static = any(isinstance(d, ast.Name) and d.id == 'staticmethod' for d in g.decorators)
+    if g.cls is not None and not static and params:
+        params = params[1:]
+    if any(isinstance(a, ast.Starred) for a in call.args):
+        raise AnalysisError(f"{f.loc(call)}: starred arguments to helper `{g.name}`")
+    subst = {f'${p_}': nz.expr(a, node) for p_, a in zip(params, call.args)}
+    subst.update({f'${k.arg}': nz.expr(k.value, node) for k in call.keywords if k.arg})
+    gcfg = cfg_of(model, g)
+    gnz = Normalizer(model, g, gcfg, param_map=_pm(g))
+    rets = [x for x in gcfg.live_nodes() if x.kind == 'return' and x.ast is not None and isinstance(x.ast.value, ast.Call)]
+    if len(rets) != 1:
+        raise AnalysisError(f"{g.loc()}: helper `{g.name}` is not a single `return Condition(...)`")
+    f2, call2, node2, nz2, sub2 = _condition_ctor(model, g, rets[0].ast.value, rets[0], gnz, depth + 1)
+    composed = {k: _apply_subst(v, subst) for k, v in sub2.items()}
+    for k, v in subst.items():
+        composed.setdefault(k, v)
+    return f2, call2, node2, nz2, composed
+
+
 def rule_c13_r2(model: Model) -> RuleResult:
     r = RuleResult('C13-R2', 'combinators are the Boolean connectives: & = all, | = any, ~ = not', floor=5)
     spec = {
@@ -125,17 +161,19 @@ def rule_c13_r2(model: Model) -> RuleResult:
         rets = [x for x in cfg.live_nodes() if x.kind == 'return' and x.ast is not None and isinstance(x.ast.value, ast.Call)]
         if len(rets) != 1:
             raise AnalysisError(f"{f.loc()}: Condition.{mname} is not a single `return Condition(...)`")
-        call = rets[0].ast.value
+        f2, call, node2, nz2, subst = _condition_ctor(model, f, rets[0].ast.value, rets[0], nz)
         lam = call.args[0] if call.args else next((k.value for k in call.keywords if k.arg == 'f'), None)
         if lam is None:
             raise AnalysisError(f"{f.loc()}: Condition.{mname}: predicate argument not found")
-        got = _lambda_form(model, f, lam, rets[0], nz)
+        got = _lambda_form(model, f2, lam, node2, nz2)
+        got = (_apply_subst(got[0], subst).replace('builtins.', ''), got[1])
         r.sample({mname: got})
-        alt = None
-        if mname in ('all', 'any'):
-            alt = (want[0].replace('GEN(', 'LIST('), True)
-        if got == want or got == alt:
+        if got == want:
             r.ok()
+        elif mname in ('all', 'any') and got == (want[0].replace('GEN(', 'LIST('), True):
+            r.fail(f.qualname, f"predicate {got[0]}", f.loc(call),
+                   f"Condition.{mname} evaluates every sub-condition before combining them (a list, not a generator): it no longer short-circuits, "
+                   f"so a later predicate that raises on a value an earlier one already decided turns the result into a failure")
         else:
             r.fail(f.qualname, f"predicate {'' if got[1] else 'not '}{got[0]}", f.loc(call),
                    f"Condition.{mname} does not compute {'not ' if not want[1] else ''}{want[0]}")
@@ -196,7 +234,7 @@ def rule_c13_r3(model: Model) -> RuleResult:
                         for b in bounds:
                             if f'${b}' in got[0]:
                                 found[b] = got
-                                # appended only when the bound is given
+                                # built only when the bound is given: statement-level branch or conditional expression
                                 ok = False
                                 for a in cfg.nodes:
                                     if a.kind == 'cond':
@@ -205,6 +243,17 @@ def rule_c13_r3(model: Model) -> RuleResult:
                                             lb = 'F' if pos else 'T'
                                             if a.edge(lb) and cfg.edge_dominates(a, lb, n):
                                                 ok = True
+                                child: ast.AST = c
+                                for anc in ancestors(c):
+                                    if isinstance(anc, ast.IfExp) and child is not anc.test:
+                                        text, pos = nz.literal(anc.test, n)
+                                        if text in (f"None is ${b}", f"${b} is None"):
+                                            holds_none = pos if child is anc.body else not pos
+                                            if not holds_none:
+                                                ok = True
+                                    if isinstance(anc, ast.stmt):
+                                        break
+                                    child = anc
                                 guards[b] = ok
         for b, want in bounds.items():
             r.instances += 1
